@@ -36,6 +36,7 @@ PAIRS = {
     # the replaced table is merged into the table every other slot already uses (a multi-table statement becomes single-table)
     "plain->oth": (lambda: Table("old"), lambda: Table("oth")),
     "none->table": (lambda: None, lambda: Table("new")),
+    "none->aliased": (lambda: None, lambda: Table("new", alias="nw")),  # (an aliased table is qualified even where names stay bare)
     "table->none": (lambda: Table("old"), lambda: None),
 }
 
@@ -286,6 +287,10 @@ def s_delete_using(tab, Q=Query):
     return Q.from_(t("from")).delete().where(fld(t("where"), "w").isin(Q.from_(t("in_from")).select(fld(t("in_sel"), "i")).where(fld(t("in_where"), "q") == fld(t("corr"), "q"))))
 
 
+# statements all of whose table-less items are the slots of the menu: replace_table(None, new) must give exactly the statement
+# built with `new` in the None slot; the three shapes below hold further table-less items ('*', columns by name), for them only
+# the clause structure is compared
+NONE_STRUCTURAL = {"pg_returning_star", "select2", "cte", "cte_insert_values"}
 STMTS = {f.__name__[2:]: f for f in (s_insert_both_wheres, s_insert_target_where_only, s_cte_update, s_cte_insert_values, s_cte_delete, s_cte_terms, s_setop_nested, s_setop_nested_top, s_update_where_foreign, s_from_multi, s_from_first_multi, s_on_subquery, s_update_set_subquery, s_twins, s_nested, s_from_nested, s_pg_returning_star, s_pg_insert_returning, s_delete_using, s_select, s_select2, s_cross, s_cte, s_insert, s_insert_select, s_update, s_update_from, s_update_join,
                                       s_delete, s_pg_returning, s_pg_distinct_on, s_setop)}
 
@@ -470,7 +475,7 @@ def _run_case(case):
     r_got, r_want = renders(got), renders(want)
     res.outcomes.append(h64(repr(r_got)))
     res.states.append(h64(repr((case["name"], case.get("slot"), case["pair"]))))
-    if case["kind"] == "stmt" and "none" in case["pair"]:
+    if case["kind"] == "stmt" and "none" in case["pair"] and not (case["pair"].startswith("none->") and case["name"] not in NONE_STRUCTURAL):
         # other table-less items of the statement ('*', USING columns) are references to None as well, so "the same
         # construction with new in that slot" is not what replace_table(None, new) must give; what it must keep is the statement
         # itself: same kind, same clauses
@@ -488,7 +493,7 @@ def _run_case(case):
     elif r_got != r_want:
         # still references old?
         d0 = next((a, b2) for a, b2 in zip(r_got, r_want) if a != b2)
-        res.violate("C16|%s|not-replaced" % sigsite if case["pair"] != "none->table" else "C16|%s|none-not-replaced" % sigsite,
+        res.violate("C16|%s|not-replaced" % sigsite if not case["pair"].startswith("none->") else "C16|%s|none-not-replaced" % sigsite,
                     "replace_table(old, new) does not give the rendering of the same construction built with new",
                     case=case, got=d0[0], want=d0[1])
     after = obs(recv, dialects=["generic", "mysql"])
